@@ -177,6 +177,7 @@ def bounded(tier, seed, repo):
             want = {"DAYS_IN_MONTHS": tuple(dim), "DAYS_IN_MONTHS_LEAP": tuple(diml),
                     "DAYS_IN_YEAR": sum(dim), "DAYS_IN_YEAR_LEAP": sum(diml),
                     "MONTHS_IN_YEAR": 12, "MAX_DAYS_IN_MONTH": max(dim),
+                    "MAX_WEEKS_IN_YEAR": -(-sum(diml) // 7),
                     "ROUGH_DAYS_IN_YEAR": sum(dim), "SECONDS_IN_DAY": 86400,
                     "SECONDS_IN_HOUR": 3600, "MINUTES_IN_DAY": 1440,
                     "INDEXED_DAYS_IN_MONTHS": [(i + 1, x) for i, x in enumerate(dim)],
